@@ -215,6 +215,11 @@ def make_program(role: str, bysrc: t.Dict[str, t.List[t.Any]], length: int, rnd:
         v = rnd.random()
         pool = a if (v < 0.65 and a) else b if (v < 0.85 and b) else c if c else (a or b)
         e = rnd.choice(pool)
+        if (e["call"]["op"] == "recv" and e["call"]["res"] == "ok" and len(e["call"]["ms"]) == 1 and e["call"]["ms"][0]["k"] != "garbage"
+                and len(prog) + 2 <= length and rnd.random() < 0.4):
+            # the delivery arrives in two pieces that are two program steps: steps of the other session can come in between,
+            # while this session holds the head of an incomplete unit
+            prog.append({"t": "head", "edge": e, "of": len(prog) + 1})
         prog.append({"t": "edge", "edge": e})
         k = sess.skey(e["dst"])
     return prog
@@ -261,6 +266,17 @@ def _run_step(s: t.Any, role: str, step: t.Dict[str, t.Any], seed: str) -> t.Tup
         if res != step["expect"]:
             diffs.append(("C19", f"register/{step['type']}/{step['expect']}->{res}", f"register_{step['type']}: expected {step['expect']}, got {res}"))
         return ("register", step["type"], res, s.state.name), diffs
+    if step["t"] == "head":
+        # first piece of the delivery that the next step ("of") completes: same seed, hence the same octets
+        data, _ = sess.encode_units(step["edge"]["call"]["ms"], random.Random(f"{seed.rsplit(':', 1)[0]}:{step['of']}"))
+        cut = 1 + random.Random(seed).randrange(len(data) - 1)
+        try:
+            got = s.receive(data[:cut])
+            res = f"ok:{len(got)}"
+        except Exception as ex:  # noqa: BLE001
+            res = type(ex).__name__
+        s._vf_headcut = cut
+        return ("head", res, s.state.name), diffs
     if step["t"] == "pagedpack":
         import sansldap
         import sansldap._messages as M
@@ -334,8 +350,11 @@ def _run_step(s: t.Any, role: str, step: t.Dict[str, t.Any], seed: str) -> t.Tup
         # deliver through a wrapper that keeps the returned objects for the late check
         orig = s.receive
 
-        def keeping(data: t.Any, _orig: t.Any = orig, _s: t.Any = s) -> t.Any:
-            got = _orig(data)
+        cut = getattr(s, "_vf_headcut", 0)
+        s._vf_headcut = 0
+
+        def keeping(data: t.Any, _orig: t.Any = orig, _s: t.Any = s, _cut: int = cut) -> t.Any:
+            got = _orig(bytes(data)[_cut:] if _cut else data)   # the head of these octets was delivered by the preceding "head" step
             for m in got:
                 kept(_s).append((m, snapshot(m)))
             return got
